@@ -76,6 +76,24 @@ pub fn structural(a: &Authentic, other: &Authentic) -> Vec<(String, Vec<u8>)> {
         // counter-field edits only: these are advisory, acceptance is allowed (output must still be the plaintext)
         let mut e = recs.clone(); e[i] = with_header(&recs[i], Some(0xdead_beef), None); v.push((format!("ctr{}", i), join(&e)));
     }
+    // "steering": every counter field announces the TRUE nonce of the record that follows it minus one — the natural attack on a decryptor
+    // that trusts the advisory field for anything (drop / duplicate / swap become self-consistent for such a decryptor)
+    let orig_idx = |r: &Vec<u8>| recs.iter().position(|x| x[16..] == r[16..]).unwrap_or(0) as u64;
+    let steer = |list: &[Vec<u8>]| -> Vec<Vec<u8>> { (0..list.len()).map(|j| { let next = if j + 1 < list.len() { orig_idx(&list[j + 1]) } else { orig_idx(&list[j]) + 1 }; with_header(&list[j], Some(next.wrapping_sub(1)), None) }).collect() };
+    for i in 0..n {
+        let mut d = recs.clone(); d.remove(i); if !d.is_empty() { v.push((format!("drop{}+steer", i), join(&steer(&d)))); }
+        let mut du = recs.clone(); du.insert(i, recs[i].clone()); v.push((format!("dup{}+steer", i), join(&steer(&du))));
+        for j in i + 1..n { let mut sw = recs.clone(); sw.swap(i, j); v.push((format!("swap{}-{}+steer", i, j), join(&steer(&sw)))); }
+    }
+    // cut at a record boundary and append a forged EMPTY final record (flag 1, length 0, junk tag): accepted only by a decryptor that
+    // skips authentication of empty messages
+    for k in 0..=n {
+        let mut e: Vec<Vec<u8>> = recs[..k].to_vec();
+        let mut forged = vec![]; forged.extend_from_slice(&(k as u64).to_be_bytes()); forged.extend_from_slice(&1u32.to_be_bytes()); forged.extend_from_slice(&0u32.to_be_bytes()); forged.extend_from_slice(&[0x5au8; 16]);
+        e.push(forged); v.push((format!("forged-empty-final@{}", k), join(&e)));
+    }
+    // the real last record with its length field cleared and the file cut 16 bytes after that header (authentic bytes only)
+    { let mut e = recs.clone(); let last = n - 1; let mut r = recs[last][..32.min(recs[last].len())].to_vec(); r[12..16].copy_from_slice(&0u32.to_be_bytes()); e[last] = r; v.push(("last-len0-cut".into(), join(&e))); }
     // early final flag: truncate after record i and set its flag (AD mismatch must catch it)
     for i in 0..n.saturating_sub(1) { let mut e: Vec<Vec<u8>> = recs[..=i].to_vec(); e[i] = with_header(&recs[i], None, Some(1)); v.push((format!("earlyfinal{}", i), join(&e))); }
     // continuation after the final record
